@@ -194,7 +194,12 @@ def _mgr_case(rng, size, tf, fill, ha, life, extra_passes=False, malformed=False
     sched, shape = gen.gen_schedule(rng, n)
     parts = gen.split_by(stream, sched)
     head = f"tf={tf or '-'} fill={int(fill)} ha={int(ha)} life={'-' if life is None else life}"
-    if accessors or malformed:
+    if malformed and parts[0] and rng.random() < 0.08:
+        # a CandleManager built directly takes any string: the prefix is only looked at when there is something to collapse
+        # (InvalidTimeFrame from the constructor; the scenario ends there)
+        head = f"tf={rng.choice(['X5', 'M1', '5T', 'x5', 'W1'])} fill={int(fill)} ha={int(ha)} life={'-' if life is None else life}"
+        meta["malformed"] = meta.get("malformed", "") + "+bad-timeframe"
+    elif accessors or malformed:
         head += _tfenum(rng, tf)
     lines = [f"mgr {head} " + wire.enc_candles(parts[0]), "msnap"]
     fed = list(parts[0])
@@ -294,14 +299,30 @@ def _ind_case(rng, size, spec, programs=False, mgr=True):
     if mgr and rng.random() < 0.1 and n:
         span = (step or 60) * rng.randint(3, 40)
         spec = dict(spec, life=span)
+    # a Counter over a reading that is None on some candles (another indicator warming up, a field that is not there): the streak
+    # is carried over those candles.  The reading is put on the candles from outside (`iset`) before the Counter runs
+    sparse = spec["kind"] == "COUNTER" and rng.random() < 0.4
+    if sparse:
+        spec = dict(spec, input=rng.choice(["A", "A", "A", "A.x", "Zmissing"]), cv=rng.choice([True, True, False, 0, 1, 3]))
+
+    def readings(idxs):
+        vals = ["n", "b:1", "b:1", "b:0", "i:0", "i:1", "i:3", "f:" + str(wire.fbits(1.0)), "{x=b:1;y=n}", "{x=n}", "{x=i:3}"]
+        return [f"iset idx={i} sub=0 name=A val={rng.choice(vals)}" for i in idxs if rng.random() < 0.6]
+
     sched, shape = gen.gen_schedule(rng, n)
     parts = gen.split_by(stream, sched)
-    lines = [f"ind {specs.spec_params(spec)}{_tfenum(rng, tf)} " + wire.enc_candles(parts[0]), "icalc", "isnap"]
+    lines = [f"ind {specs.spec_params(spec)}{_tfenum(rng, tf)} " + wire.enc_candles(parts[0])]
+    if sparse and tf is None:
+        lines += readings(range(len(parts[0])))
+    lines += ["icalc", "isnap"]
     for p in parts[1:]:
         enc = _iso_enc(rng, rng.choice(["candle", "candle", "candle", "dict", "list", "tlist"]), 0.08)
         single = int(len(p) == 1 and rng.random() < 0.5)
         lines.append(f"iapp enc={enc} single={single} " + wire.enc_candles(p))
         lines.append("isnap")
+        if sparse and rng.random() < 0.5:
+            # the appended candles were counted without the reading (None: the streak stands); now it arrives and everything is redone
+            lines += readings(range(-min(len(p), 3), 0)) + ["irecalc", "isnap"]
         if programs and rng.random() < 0.3:
             k = rng.random()
             if k < 0.25:
@@ -320,7 +341,8 @@ def _ind_case(rng, size, spec, programs=False, mgr=True):
                 # explicit end index: within the documented use (an end below -len is re-normalised a second time by the
                 # sub-indicators of the real code, which the model - indices normalised once - does not follow: outside the domain)
                 # (likewise a start below -len, which only the default end tolerates)
-                e_ = "-" if (rng.random() < 0.6 or s_ < 0) else str(rng.choice([s_ + 1, s_ + 2, s_ + 3]))
+                # (end=-1: the negative end the code normalises itself; on at least one candle it stays inside the list)
+                e_ = "-" if (rng.random() < 0.6 or s_ < 0) else str(rng.choice([s_ + 1, s_ + 2, s_ + 3, -1]))
                 lines.append(f"icidx s={s_} e={e_}")
             else:
                 lines.append("icalc")
@@ -329,7 +351,7 @@ def _ind_case(rng, size, spec, programs=False, mgr=True):
         for what in ("has_reading", "active", "reading_count", "reading", "prev_reading"):
             lines.append(f"iacc {what}")
     meta.update({"kind": spec["kind"] + (":" + spec["fn"] if spec["kind"] == "AMORPH" else ""), "schedule": shape,
-                 "tf": bool(tf), "ha": bool(spec.get("ha")), "n": n, "appends": len(parts) - 1})
+                 "tf": bool(tf), "ha": bool(spec.get("ha")), "n": n, "appends": len(parts) - 1, "sparse": bool(sparse)})
     return lines, meta
 
 
@@ -449,10 +471,6 @@ def gen_hexital(rng, size, ha_ok=False, life_ok=False, programs=True, enc=None):
             elif k < 0.85:
                 # add a new member – half of the time one that re-uses the name of an existing (possibly removed) member
                 sp2 = specs.gen_spec(rng)
-                if sp2.get("name") is not None and any(m.get("name") == sp2["name"] and m.get("kind") != sp2.get("kind") for m in members):
-                    # (a different class re-registered under a name whose stale readings of another TYPE - dict vs number - are still on
-                    # the candles is outside the stated domain: the model's Counter converts a truthy previous reading eagerly)
-                    sp2.pop("name")
                 if rng.random() < 0.5:
                     sp2 = dict(rng.choice(members))
                     if "input" in sp2:
@@ -631,7 +649,11 @@ def _mk_analysis_component(fn):
 
     def genf(rng, size):
         n = rng.randint(0, min(size, 24))
-        stream, meta = gen.gen_stream(rng, n)
+        # the candlestick patterns also on a market that shows them (a long body, then a gapped doji)
+        star = fn in ("doji", "dojistar", "hammer", "inv_hammer") and rng.random() < 0.4
+        if star:
+            n = max(n, min(size, rng.randint(12, 24)))
+        stream, meta = gen.gen_stream(rng, n, price_style="star" if star else None)
         lines = ["ind kind=HLA round=4 name=- suffix=- tf=- fill=0 ha=0 life=- " + wire.enc_candles(stream)]
         for i in range(n):
             for nm in ("A", "B"):
@@ -664,6 +686,44 @@ def _mk_analysis_component(fn):
 
 for _f in specs.ANALYSIS:
     COMPONENTS[f"analysis.{_f}"] = (_mk_analysis_component(_f), "full")
+
+
+AUTIL_AVG = ["realbody_avg", "high_low_avg", "shadow_upper_avg", "shadow_lower_avg"]
+AUTIL_PCT = ["_realbody_percentage", "_high_low_percentage"]
+AUTIL_LEN = ["candle_doji", "candle_bodylong", "candle_bodyverylong", "candle_bodyshort", "candle_shadow_veryshort", "candle_shadow_short",
+             "candle_near", "candle_far", "candle_equal"]
+AUTIL_AT = ["candle_shadow_long", "candle_shadow_verylong"]
+AUTIL_GAP = ["realbody_gapup", "realbody_gapdown", "candle_gapup", "candle_gapdown"]
+
+
+@component("analysis.utils")
+def gen_analysis_utils(rng, size):
+    """hexital.analysis.utils called directly: every function at every index (None, negative, past the end) of a list of 0..24
+    candles, lengths 0 / 1 / ... / longer than the list / negative / the default, the gap predicates on every kind of pair"""
+    n = rng.randint(0, min(size, 24))
+    stream, meta = gen.gen_stream(rng, n, price_style=rng.choice([None, None, "gappy", "ints", "grid", "jumpy", "flat"]))
+    lines = ["ind kind=HLA round=4 name=- suffix=- tf=- fill=0 ha=0 life=- " + wire.enc_candles(stream)]
+    idxs = list(range(-n - 2, n + 2)) + [None]
+    ix = lambda i: "" if i is None else f" idx={i}"  # noqa
+    for fn in rng.sample(AUTIL_AVG, 2) + rng.sample(AUTIL_PCT, 1) + rng.sample(AUTIL_LEN, 3):
+        for _ in range(2):
+            length = rng.choice([0, 1, 1, 2, 3, 5, 10, n, n + 1, 30, -2, None])
+            if fn in AUTIL_AVG and length is None:
+                length = 10     # no default there
+            base = f"autil fn={fn}" + ("" if length is None else f" length={length}")
+            if fn in AUTIL_PCT and rng.random() < 0.7:
+                base += " pct=" + wire.enc_num(rng.choice([1.0, 0.1, 3, 0, 0.5, -1.5, 2]))
+            for i in idxs:
+                lines.append(base + ix(i))
+    for fn in AUTIL_AT:
+        for i in idxs:
+            lines.append(f"autil fn={fn}" + ix(i))
+    for fn in AUTIL_GAP:
+        for _ in range(max(4, n)):
+            i = rng.randint(-n - 1, n)
+            lines.append(f"autil fn={fn} idx={i} two={rng.choice([i - 1, i - 1, i + 1, i, rng.randint(-n - 1, n)])}")
+    meta.update({"n": n})
+    return lines, meta
 
 
 # --------------------------------------------------------------------------------------
